@@ -32,6 +32,12 @@ leaf assignment is compared through the wrong sub-path and skipped — `C07_full
 refuted from that witness (recorded finding `object-attached-below-itself`, corpus/C07/self-cycle.json).
 Batched assignments on one object (`param.update`, `batch_call_watchers`) are modelled (`Step.update`) and
 checked by correspondence and the oracle; the theorems are about unbatched assignments.
+What the theorems do NOT cover (model + differential run + oracle only): `'a.param'` leaves (the
+English names them; `Scope.leaf` excludes them), object-valued leaves (`'a.b'` next to `'a.b.x'`;
+`Typing.leafInt`), several methods on the owner, several owners, batched steps (`C07_full_batch_refuted`),
+attach-from / detach-to `None` call counts (the English excludes them), and there is no theorem that the
+log of a whole in-scope history satisfies `specHistoryP` — the per-step theorems and the oracle are tied
+by `oracle_read_set_is_the_walk` only.  `history_keeps_installed` assumes per state only `SimpleAlong`.
 Not modelled: nested batches, slots (`a.x:bounds`), `'a.b.param'`; `'a.param'`, several methods and several
 owners are covered by the differential run and the oracle only.
 -/
@@ -165,10 +171,10 @@ theorem installed_by_constructor {w w' : PWorld} {cls : Nat} {vals : List (Name 
     (hw : w.watchers = [] ∧ w.dyn = []) (hg' : Good w' t m specs) : Installed w' t m specs ∧ w'.log = w.log :=
   new_owner_installed hnew ht hw hg'.scope
 
-/-- states reached along a history all satisfy the standing assumptions -/
-def AllGood (t : Oid) (m : Name) (specs : List PathSpec) : PWorld → List Step → Prop
-  | w, [] => Good w t m specs
-  | w, st :: rest => Good w t m specs ∧ ∀ w1, runStep w st = .ok w1 → AllGood t m specs w1 rest
+/-- the one genuine per-state assumption: along the history no resolution chain visits an object twice -/
+def SimpleAlong (t : Oid) (specs : List PathSpec) : PWorld → List Step → Prop
+  | w, [] => Simple w t specs
+  | w, st :: rest => Simple w t specs ∧ ∀ w1, runStep w st = .ok w1 → SimpleAlong t specs w1 rest
 
 def runSteps : PWorld → List Step → Except PErr PWorld
   | w, [] => .ok w
@@ -177,41 +183,66 @@ def runSteps : PWorld → List Step → Except PErr PWorld
     | .error e => .error e
     | .ok w1 => runSteps w1 rest
 
+/-- a history inside the scope of the theorems: unbatched assignments, and constructions of objects whose
+class has no dependent method and declares the parameters the paths name with the right kinds -/
+def StepsInScope (classes : List PClass) (specs : List PathSpec) (steps : List Step) : Prop :=
+  ∀ st ∈ steps, (∀ o kvs, st ≠ .update o kvs) ∧
+    (∀ cls vals, st = .new cls vals → ∀ c, classes[cls]? = some c → ClassFits c specs)
+
 /-- **C07 (after any sequence of replacing objects along the path and assigning leaf parameters).**
-From an installed state, along every history of (unbatched) assignments and constructions whose states
-satisfy the standing assumptions, the invariant holds at the end (hence at every point): the
-single-step theorems above apply to every step of every history.  Batched steps (`Step.update`:
-`param.update` / `batch_call_watchers` on one object) are modelled and checked by correspondence and
-the oracle, not covered by this theorem. -/
+From an installed state satisfying the standing assumptions, along EVERY history of unbatched
+assignments and constructions of method-less objects (`StepsInScope`) in which no resolution chain
+ever visits an object twice (`SimpleAlong` — the only per-state assumption; scope and typing are
+derived), the invariant and the assumptions hold at the end, hence at every point: the single-step
+theorems above apply to every step.  Batched steps (`Step.update`) are modelled and checked by
+correspondence and the oracle only (`C07_full_batch_refuted`). -/
 theorem history_keeps_installed (t : Oid) (m : Name) (specs : List PathSpec) : ∀ (steps : List Step) (w w' : PWorld),
-    (∀ st ∈ steps, ∀ o kvs, st ≠ .update o kvs) →
-    Installed w t m specs → AllGood t m specs w steps → runSteps w steps = .ok w' →
+    StepsInScope w.classes specs steps → Installed w t m specs → Scope w t m specs → Typing w specs →
+    SimpleAlong t specs w steps → runSteps w steps = .ok w' →
     Installed w' t m specs ∧ Good w' t m specs := by
   intro steps
   induction steps with
   | nil =>
-    intro w w' _ hi hg hr
+    intro w w' _ hi hs hty hsim hr
     simp only [runSteps, Except.ok.injEq] at hr
     subst hr
-    exact ⟨hi, hg⟩
+    exact ⟨hi, hs, hty, hsim⟩
   | cons st rest ih =>
-    intro w w' hnu hi hg hr
-    obtain ⟨hg0, hnext⟩ := hg
+    intro w w' hin hi hs hty hsim hr
+    obtain ⟨hsim0, hnext⟩ := hsim
     simp only [runSteps] at hr
     split at hr
     · simp at hr
     · rename_i w1 h1
       have hall := hnext w1 h1
-      have hg1 : Good w1 t m specs := by
+      have hsim1 : Simple w1 t specs := by
         cases rest with
         | nil => exact hall
         | cons _ _ => exact hall.1
-      have hi1 : Installed w1 t m specs := by
+      have hcl : w1.classes = w.classes := runStep_classes h1
+      have hstep : Installed w1 t m specs ∧ Scope w1 t m specs ∧ Typing w1 specs := by
         cases st with
-        | set o p v => exact (installed_preserved_by_assignment hg0 hi h1 hg1.simple).1
-        | new cls vals => exact (new_other_installed h1 hg0.scope hi hg1.scope).1
-        | update o kvs => exact absurd rfl (hnu _ (by simp) o kvs)
-      exact ih w1 w' (fun st hst => hnu st (List.mem_cons_of_mem _ hst)) hi1 hall hr
+        | set o p v =>
+          obtain ⟨a, b⟩ := installed_preserved_by_assignment ⟨hs, hty, hsim0⟩ hi h1 hsim1
+          exact ⟨a, b.scope, b.typing⟩
+        | new cls vals =>
+          obtain ⟨a, b⟩ := new_scope h1 hs hty (fun c hc => (hin _ (by simp)).2 cls vals rfl c hc)
+          exact ⟨(new_other_installed h1 hs hi a).1, a, b⟩
+        | update o kvs => exact absurd rfl ((hin _ (by simp)).1 o kvs)
+      exact ih w1 w' (by rw [hcl]; exact fun st hst => hin st (List.mem_cons_of_mem _ hst)) hstep.1 hstep.2.1 hstep.2.2 hall hr
+
+/-- **The statement is false for batched replacements of two sub-objects** (no cycle, no sharing involved):
+`t.param.update(a=…, b=…)` with `@depends('a.x','b.y')` calls the method twice (recorded finding
+`batch-two-roots-stale-queued-watcher`, corpus/C07/batch-two-roots.json) — which is why `Step.update` is
+outside the theorems. -/
+def batchClasses : List PClass := [nodeCls [], nodeCls [meth "m" [⟨["a"], "x"⟩, ⟨["b"], "y"⟩]]]
+def batchSteps : List Step := [
+  .new 0 (mkVals 0 .none .none 1 0), .new 0 (mkVals 0 .none .none 0 1), .new 1 (mkVals 0 (.ref 0) (.ref 1) 0 0),
+  .new 0 (mkVals 0 .none .none 2 0), .new 0 (mkVals 0 .none .none 0 2), .update 2 [("a", .ref 3), ("b", .ref 4)]]
+
+theorem C07_full_batch_refuted :
+    (specHistoryP batchClasses 0 [] (batchSteps.zip (modelObs batchClasses batchSteps))).2 ≠ none := by
+  decide
 
 /-! ## Non-vacuity -/
 
